@@ -14,3 +14,6 @@ open Biogo.Properties.C05
 #print axioms initial_object_separated
 #print axioms untouched_object_unchanged
 #print axioms clone_deep
+#print axioms revcomp_spec_alignment
+#print axioms revcomp_involutive_alignment
+#print axioms reverse_involutive_alignment
